@@ -7,8 +7,11 @@
   the queue algorithm; the empty oracle at every block (no delay).
 
   `precSchedAdv`: an order of the blocks, legal for `Reach` (any process of minimal
-  wake time may run next), in which the successor task starts at t = 2 while its
-  predecessor's recorded finish is t = 3.
+  wake time may run next), in which, inside an instant, the predecessor's body ends
+  BEFORE its allocation process polls BEFORE `allocate_tasks` runs.
+  -- F13: before the repair the successor started at t = 2 in this order, one step before its
+  -- predecessor's recorded finish t = 3.  With the repair the allocation process re-arms at
+  -- t = 2 (`now < aft`), reports the task finished at t = 3 and the successor starts at t = 3.
 
   `precSchedPid`: the same run with the blocks of every instant in creation order;
   there the successor starts at t = 3.
@@ -82,7 +85,7 @@ theorem precW0_buf : precW0.buf.hot.stored = [] ∧ precW0.buf.hot.scheduled = [
 def precA : Tid := .wf 0 1 0
 def precB : Tid := .wf 0 1 1
 
-/-! ### any order inside an instant: the successor starts before the predecessor's recorded finish -/
+/-! ### the adversarial order inside an instant: the successor starts AT the predecessor's recorded finish -/
 
 /-- Instant 0 (pids): monitor 0, telescope 1 (lets the observation in; supervisor 5), cluster loop 2,
 scheduler loop 3, buffer loop 4, supervisor 5 (provisioner 6, stream 7), provisioner 6 (allocation
@@ -93,24 +96,28 @@ edge `precA → precB`; `allocate_tasks` 10), 4, 5, 6, 8 (ingest task FINISHED, 
 `allocate_tasks` 10 (proposes `precA` on machine 0: allocation process 11), 11 (body 12), body 12
 (`precA` starts: `ast = 1`, work 2, waits 1).
 Instant 2: 0, 1, 2, 3, 4, then body 12 (stamps `aft = 2 + 1 = 3` and ends) BEFORE its allocation
-process 11 (sees the body ended: `precA` FINISHED in the cluster at t = 2, machine back) BEFORE
-`allocate_tasks` 10 (sees `precA` finished: proposes `precB`; allocation process 13), 13 (body 14),
-body 14 (`precB` starts: `ast = 2`). -/
+process 11 (F13: sees the body ended but `now = 2 < aft = 3`: re-arms, `precA` stays RUNNING on its
+machine) BEFORE `allocate_tasks` 10 (`precA` not finished: nothing to propose).
+Instant 3: 0, 2, 3, 4, then allocation process 11 (`now = 3 ≥ aft`: `precA` FINISHED in the cluster,
+machine back) BEFORE `allocate_tasks` 10 (sees `precA` finished: proposes `precB`; allocation
+process 13), 13 (body 14), body 14 (`precB` starts: `ast = 3`, the recorded finish of `precA`). -/
 def precSchedAdv : List Nat :=
   [0, 1, 2, 3, 4, 5, 6, 7, 8, 9, 9,
    0, 1, 2, 3, 4, 5, 6, 8, 10, 11, 12,
-   0, 1, 2, 3, 4, 12, 11, 10, 13, 14]
+   0, 1, 2, 3, 4, 12, 11, 10,
+   0, 2, 3, 4, 11, 10, 13, 14]
 
 theorem precSchedAdv_enabled : precEnabledAll precSchedAdv precW0.start = true := by decide +kernel
 
 theorem precSchedAdv_reach : Reach precW0 (precRun precSchedAdv precW0.start) :=
   prec_reach_run precSchedAdv _ Reach.start precSchedAdv_enabled
 
+-- F13: `precB` starts at t = 3 (before the repair: t = 2)
 theorem precSchedAdv_final :
     let s := precRun precSchedAdv precW0.start
     s.crashed = none ∧
     (s.plans.map (·.edges)) = [[(precA, precB)]] ∧
-    (s.task? precB).map (fun r => (r.status, r.ast, r.preds)) = some (.running, some 2, [precA]) ∧
+    (s.task? precB).map (fun r => (r.status, r.ast, r.preds)) = some (.running, some 3, [precA]) ∧
     (s.task? precA).map (fun r => (r.status, r.ast, r.aft)) = some (.finished, some 1, some 3) ∧
     s.cl.isTaskFinished precA = true ∧ precB ∈ s.starts := by
   decide +kernel
